@@ -21,6 +21,10 @@ fn main() {
         let up = sp.universe();
         ctx.run_slice(Slice::new(format!("layer-many-operations[{}]", sp.name()), up.count(), move |i, loc| check::<B>(&up.get_open(i), !fast, loc)));
     }
+    // fourteen operations, ten of them idle: two producers, three consumers and a join at every choice of four distinct
+    // indices - a level of three operations with sparse indices discovered in every relative order
+    let msf = 14usize;
+    ctx.run_slice(Slice::new(format!("sparse-frontier[{} operations, every placement of 3 consumers and a join]", msf), ohmc::props::structured::sparse_frontier_count(msf), move |i, loc| check::<B>(&ohmc::props::structured::sparse_frontier(msf, i), !fast, loc)));
     // structured families of larger diagrams (fan-out/in, parallel, chains, cycles with tails, diamonds, ...)
     let kmax = if quick { 6 } else { 8 };
     let mut st = ohmc::props::structured::shapes(kmax);
